@@ -178,6 +178,33 @@ Example C04_nonvacuous :
      IEv (EWait (GWait, 0) 0 WSkipped); IEv (EApply (GApply, 1) 2 ASkip); IEv (EWait (GWait, 1) 2 WSkipped)].
 Proof. vm_compute. repeat split; reflexivity. Qed.
 
+(* dynamic type knowledge: object 0 is a CRD, object 1 a custom resource of its kind (implicit dependency
+   1 -> 0); the cluster is empty.  The CRD is created and reconciled, the RESTMapper is reset at the end of
+   its wait task, then the custom resource is created.  With the create of the CRD rejected the mapper is
+   not reset and the custom resource is reported ApplyFailed (unknown type: the info helper fails before the
+   dependency filter would have skipped it) — in both readings no request is sent for it, which is what
+   C04_blocked_* and the monitor (`bad` accepts AFail and ASkip of the dependency) state. *)
+Example C04_nonvacuous_crd :
+  let univ := [mkU KCrd None None; mkU KPlain None (Some 0)] in
+  let o := mkO false true PAdoptAll DNone VSkipInvalid false true true false PropBackground false in
+  let waits := [mkW [mkS 0 SCurrent true 0%N 2%Z] WTimeout; mkW [mkS 1 SCurrent true 0%N 2%Z] WTimeout] in
+  let locals := [mkL 0 [] false false false 1; mkL 1 [] false false false 1] in
+  let sc := mkSc univ None locals o (mkE [] waits CNever None) in
+  let sc' := mkSc univ None locals o (mkE [FApply 0] waits CNever None) in
+  let c0 := mkCl [] None 5%N in
+  option_map (fun p => g_deps (pl_graph (fst p)) 1) (run_plan sc c0) = Some [0] /\
+  C04_items (out_trace (run sc c0)) =
+    [IReq (RCreate 0 false) true [0] (Some [0; 1]); IEv (EApply (GApply, 0) 0 AOk);
+     IEv (EWait (GWait, 0) 0 WPending); IEv (EWait (GWait, 0) 0 WOk);
+     IReq (RCreate 1 false) true [0; 1] (Some [0; 1]); IEv (EApply (GApply, 1) 1 AOk);
+     IEv (EWait (GWait, 1) 1 WPending); IEv (EWait (GWait, 1) 1 WOk)] /\
+  C04_items (out_trace (run sc' c0)) =
+    [IReq (RCreate 0 false) false [] (Some [0; 1]); IEv (EApply (GApply, 0) 0 AFail);
+     IEv (EWait (GWait, 0) 0 WSkipped); IEv (EApply (GApply, 1) 1 AFail); IEv (EWait (GWait, 1) 1 WSkipped)] /\
+  mon_C04 sc c0 (run sc c0) = true /\ mon_C04 sc' c0 (run sc' c0) = true /\
+  mon_C04_obs sc c0 (run sc c0) = true.
+Proof. vm_compute. repeat split; reflexivity. Qed.
+
 Print Assumptions C04_order.
 Print Assumptions C04_filter_pass.
 Print Assumptions C04_blocked_partial.
